@@ -34,6 +34,8 @@ DESC = {
  "C14-2": ("RouteUDP: loop variables hoisted and the per-stream reply goroutine uses the shared addr", "two local source addresses on one listener and a reply for the older one after a packet from the newer one"),
  "C15-1": ("userPanel.GetUser looks up under RLock, authenticates unlocked, inserts without re-check", "two first connections of a not-yet-active user overlapping in AuthenticateUser"),
  "C15-2": ("AuthoriseNewSession reads downCredit from the UpCredit key", "user already holds a session, DownCredit alone set <= 0 through the admin API, then a new session id"),
+ "C15-3": ("atomic session counter decremented in CloseSession outside `if existing`", "fill the cap, one refused attempt (whose error path calls CloseSession), then a new session id: admitted beyond the cap"),
+ "C15-4": ("GetSession looks the id up under RLock and creates under the write lock without looking again", "two simultaneous first connections of one (UID, session id): two sessions with different keys, the first overwritten"),
  "C16-1": ("commitUpdate skips (and then drops) queue entries of users that are no longer active", "traffic, then the user's last session closes, then an upload round"),
  "C16-2": ("TERMINATE verdict applied to the *ActiveUser remembered before UploadStatus", "the user's record replaced (last session drops, client reconnects) while the upload is in flight"),
  "C17-1": ("commitUpdate holds activeUsersM.RLock across the loop and isActive read-locks again", "a writer (GetUser/TerminateActiveUser) arriving between the two read locks: deadlock"),
@@ -44,6 +46,44 @@ DESC = {
  "C19-2": ("token request clamped to the bucket capacity", "a configured rate below the frame size and full frames"),
  "C20-1": ("in-place filter of empty AlternativeNames does not step back after deleting", "two or more adjacent empty names"),
  "C20-2": ("CDN fallback reuses remote.RemoteAddr which is computed later", "Transport=CDN without CDNOriginHost: wsUrl ws:///"),
+ "C01-3": ("Stream.Write split loop: slice bound loses its +n when the unit is hoisted into a local", "a single Write call larger than two frames: the second chunk is empty, Write fails on a healthy session and a sequence number is burnt (stream stalls)"),
+ "C01-4": ("RouteTCP's first-packet buffer hoisted out of the per-connection goroutine", "two local connections whose first packets are read at the same moment: one stream carries the other's first bytes"),
+ "C02-3": ("streamBufferedPipe.Read returns EOF right after waking on a closed pipe", "a reader parked on an empty buffer when one arrival both hands over data and lets the closing frame take effect (orders 1,2c,0 / 2c,0,1 ...)"),
+ "C02-4": ("'too far ahead' bound nextRecvSeq+2^20 overflows near 2^64", "sequence numbers within 2^20 of 2^64 and a non-sorted arrival order"),
+ "C03-3": ("closeStream skips the closing frame when writingFrame.Seq == 0 (also true for accepted streams that never wrote)", "the accepting side closes with zero bytes written on a multiplexed session: the opener's Read never returns"),
+ "C03-4": ("Stream.Write checks isClosed before taking writingM", "Write stalled in the connection, Close queued behind it, second Write queued behind Close: data frame after the closing frame, Write acknowledged after Close returned"),
+ "C04-3": ("send buffers sized 16640 instead of the configured limit + ReadFrom window derived from the buffer length", "an explicitly configured limit below 16640 (production: 16401), bulk source via ReadFrom, one of the first five (padded) frames"),
+ "C04-4": ("split-loop refactor: remaining < maxPayload instead of <=", "an unordered session and a Write of exactly the per-frame maximum: refused with ErrShortBuffer"),
+ "C05-3": ("TLSConn.Write returns early on a write error without resetting the pooled buffer", "a Write that fails without reaching the wire, then a later successful Write on the connection: stale record prepended, framing lost"),
+ "C05-4": ("switchboard.deplex hands buf[:n] to the session whenever n > 0, before looking at err", "connection lost mid-record (TLSConn returns k, ErrUnexpectedEOF) or oversize WebSocket message: truncated record processed as a frame"),
+ "C06-3": ("client auth plaintext taken from a sync.Pool scratch buffer that is never cleared", "two handshakes in one process with different configurations (long proxy method / unordered, then shorter / ordered): stale bytes and flag survive"),
+ "C06-4": ("client drains ChangeCipherSpec and encrypted-certificate records through a 64-byte buffer", "the server's random certificate length drawing 68: client handshake fails with short buffer while the server completed"),
+ "C07-3": ("proxy-method gate moved behind the session lookup (checked for new sessions only)", "an existing session id of the user, then a valid first packet naming an unknown proxy method: answered as Cloak instead of redirected"),
+ "C07-4": ("shared account reader sets both credits from the UpCredit key", "a user with upload credit left and download credit <= 0: accepted again"),
+ "C08-3": ("registerRandom split into a lookup before decryption and a store after it", "N simultaneous presentations of one handshake all passing the lookup before any store"),
+ "C08-4": ("top-bit mask moved into the TLS transport's parser; WebSocket path forgotten", "a WebSocket handshake replayed with bit 255 of the key flipped"),
+ "C09-3": ("first-packet read deadline cleared after the error return instead of by defer", "unrecognised first byte / over-long record / over-long header, relayed connection still open 15 s after accept: relay cut"),
+ "C09-4": ("fallback redirect port written back into the shared State", "RedirAddr without a port, two bind ports, probes on one port and then on the other: second goes to the wrong port"),
+ "C10-3": ("TLSConn.Write grows its pooled buffer once to the maximum and loses the 3 header bytes", "first payload of 14332+ bytes on a connection: record goes out as 00 00 00 <len>, and so does every later record from that buffer"),
+ "C10-4": ("session-closing notice length drawn from 0..255 and an obfuscate error only logged", "an actively closed session drawing padding length 0 (1 in 256): 17 03 03 00 00 on the wire"),
+ "C11-3": ("deobfuscate bound check compares the extra-length byte with len(in); negative-length test dropped", "plain mode, message shorter than 270 bytes whose extra-length byte falls in the 14-value window: slice bounds panic in deplex"),
+ "C11-4": ("deplex treats n == 0 like an error", "an empty TLS record 17 03 03 00 00 injected by anyone on the path: session torn down"),
+ "C12-3": ("send's error path sets sb.broken before passiveClose", "multi-connection session, a reset first seen by an in-flight write: closeAll loses its CAS, other connections never closed, their readers parked"),
+ "C12-4": ("close(acceptCh) moved before streamsM.Lock in closeSession", "session close racing the first frame of a new stream (or a full accept backlog): send on closed channel panics in deplex"),
+ "C13-3": ("closing frame sent directly, not through obfuscateAndSend: its sequence number is not consumed", "ReadFrom past its unlocked closed-check, Write stalled holding the mutex, Close queued, ReadFrom chunk queued: (id,seq) reused for closing and data frame"),
+ "C13-4": ("ReadFrom sets writingFrame.Payload before taking writingM", "Write #1 stalled holding the mutex, Write #2 queued, ReadFrom chunk queued behind: ReadFrom's frame carries Write #2's length over its own pooled buffer"),
+ "C14-3": ("datagramBufferedPipe.Read reads into target instead of target[:dataLen]", "two datagrams queued before a Read with a buffer larger than the first: merged / later datagrams' content shifted"),
+ "C14-4": ("closing frame's payload queued as a datagram before the pipe is marked closed", "peer actively closes the stream and the local side reads to the end: the random padding is delivered as a message"),
+ "C16-3": ("UploadStatus 'continue's after the upload-credit verdict, skipping the download deduction of the same report", "one report whose upload usage exhausts upload credit and whose download usage is non-zero"),
+ "C16-4": ("LimitedValve.Nullify loads the counters and then stores 0 instead of swapping", "AddRx/AddTx landing between the load and the store: bytes never charged"),
+ "C17-3": ("TerminateActiveUser deletes the UID unconditionally", "stale record terminated a second time (dispatcher error path) after a fresh record took its place: live session in a forgotten record"),
+ "C17-4": ("TerminateActiveUser holds activeUsersM across updateUsageQueueForOne (table -> queue order)", "a termination overlapping the start of an upload round (queue -> table order): deadlock, table stays write-locked"),
+ "C18-3": ("WriteUserInfo skips storing a value of 0", "an accepted update of a non-zero field to 0: reads keep the old value"),
+ "C18-4": ("POST handler lost its return after a body decode error", "valid JSON with matching UID and one ill-typed field: 400 answered and the half-decoded record written"),
+ "C19-3": ("txWait moved after conn.Write (charging what was written)", "empty bucket and several backlogged senders: each gets a whole message out before sleeping (per-interval bound exceeded)"),
+ "C19-4": ("MakeValve: tx bucket capacity taken from rxRate", "UpRate > DownRate and a full tx bucket: burst of upRate/downRate seconds' worth towards the user"),
+ "C20-3": ("ProcessRawConfig: negative NumConn no longer clamped (Singleplex with NumConn=-1)", "NumConn < 0 in either syntax: accepted, then makechan panic on the first stream"),
+ "C20-4": ("single-pass unescape in ssvToJson with an off-by-one at the end of the string", "an escaped option string ending in an escape sequence (base64 '\\=\\=' last, no trailing ';'): rejected although the JSON form is accepted"),
 }
 head = subprocess.check_output(["git","-C","/repo","rev-parse","--short","HEAD"]).decode().strip()
 index = []
